@@ -387,13 +387,23 @@ class Area:
 
     def selftest(self, tpath, corrupt, what, limit=400000):
         """Binding self-test (DESIGN.md 2.6): a recorded trace with one corrupted observation must be rejected."""
-        ev = []
+        # a prefix of the trace is enough as a rule; if it holds nothing the corruption applies to, the next stretch is tried
+        bad = None
         with open(tpath) as f:
-            for line in f:
-                ev.append(json.loads(line))
-                if len(ev) >= limit:
+            while bad is None:
+                ev = []
+                for line in f:
+                    ev.append(json.loads(line))
+                    if len(ev) >= limit:
+                        break
+                if not ev:
                     break
-        bad = corrupt(ev)
+                # a stretch starts inside a run: drop what precedes its first Reset (the first stretch starts with one)
+                first = next((i for i, e in enumerate(ev) if e.get("ev") == "Reset"), None)
+                if first is None:
+                    continue
+                ev = ev[first:]
+                bad = corrupt(ev)
         if bad is None:
             raise ToolError("binding self-test: nothing to corrupt (%s)" % what)
         # keep only the run that contains the corrupted event
